@@ -131,12 +131,14 @@ def run(ctx):
     import random  # deterministic selection of corpus entries from VERIF_SEED
     rnd = random.Random(ctx.seed)
     ents = corpus.entries()
-    if quick:
-        ents = rnd.sample(ents, 20)
     jobs = []
+    # every corpus entry at both tiers (the entries differ in which emitters they reach: inheritance, templates,
+    # struct-as-class ...); the quick tier compares the all-on variant and four drawn ones per entry
+    all_on = dict(glob={k: True for k in GLOBAL_OPTS}, version=True, per={})
     for e in ents:
         doc = meta.load(e.text())
-        jobs.append((e.yaml[:-5], e.text(), e.argv(), variants_for(doc, 8 if quick else 24, ctx.seed, not quick)))
+        vs = variants_for(doc, 4 if quick else 24, ctx.seed, not quick)
+        jobs.append((e.yaml[:-5], e.text(), e.argv(), ([all_on] if quick else []) + vs))
     for k, (name, text) in enumerate(smallgen.sample_libraries(ctx.seed, 36 if quick else 120)):
         doc = meta.load(text)
         if k % 2 == 0:
